@@ -254,3 +254,17 @@ Example C08_docfeed_nonvacuous :
   next st = 22 + 1 /\ skipped st = [(16, 16)] /\ abandoned st = [(18, 18); (21, 21)]
   /\ map d_seq (delivered st) = [22; 19; 14; 12; 13; 15; 17; 11].
 Proof. split; [apply docs_consistent_b_sound; vm_compute; reflexivity | vm_compute; repeat split]. Qed.
+
+(* partial abandonment (CleanSkippedSequenceQueue with per-element timestamps): in every reachable state, for every
+   pattern of "old enough" bits, exactly the elements whose bit is set leave the skipped list for the abandoned set,
+   the two are disjoint afterwards, nothing else changes -- and an abandoned sequence that turns up later is ignored *)
+Theorem C08_seqbuf_partial_abandon : forall i m ops bits, let st := run (init i m) ops in
+  let st' := step st (AbandonSome bits) in
+  let gone := snd (sk_split bits (skipped st)) in
+  skipped st' = fst (sk_split bits (skipped st)) /\ abandoned st' = gone ++ abandoned st
+  /\ (forall s, sk_mem s (skipped st) = sk_mem s (skipped st') || sk_mem s gone)
+  /\ (forall s, sk_mem s gone = true -> sk_mem s (skipped st') = false)
+  /\ next st' = next st /\ pending st' = pending st /\ received st' = received st /\ delivered st' = delivered st
+  /\ (forall k s a, sk_mem s (abandoned st') = true -> step st' (Arrive k s a) = st').
+Proof. exact thm_partial_abandon. Qed.
+Print Assumptions C08_seqbuf_partial_abandon.
